@@ -650,6 +650,88 @@ func runHistory(k *vf.Case) {
 	}
 }
 
+// runCapacity: "dropped only because the bounded queue was full". The worker is parked inside a gated export
+// holding one span; exactly MaxQueueSize further spans are ended one after the other: they all fit, so after
+// the gate opens and a flush returns, every one of them has been exported and nothing was counted as dropped.
+// One span more than that is dropped, and counted.
+type gateExp struct {
+	mu      sync.Mutex
+	entered chan struct{}
+	gate    chan struct{}
+	once    sync.Once
+	ids     map[trace.SpanID]int
+}
+
+func (e *gateExp) ExportSpans(ctx context.Context, ss []sdktrace.ReadOnlySpan) error {
+	e.once.Do(func() { close(e.entered) })
+	<-e.gate
+	e.mu.Lock()
+	for _, s := range ss {
+		e.ids[s.SpanContext().SpanID()]++
+	}
+	e.mu.Unlock()
+	return nil
+}
+func (e *gateExp) Shutdown(context.Context) error { return nil }
+
+func runCapacity(k *vf.Case) {
+	r := k.R
+	q := vf.Pick(r, []int{1, 2, 3, 4, 16, 64})
+	extra := r.Intn(3) // spans beyond the capacity
+	e := &gateExp{entered: make(chan struct{}), gate: make(chan struct{}), ids: map[trace.SpanID]int{}}
+	bsp := sdktrace.NewBatchSpanProcessor(e, sdktrace.WithMaxQueueSize(q), sdktrace.WithMaxExportBatchSize(1), sdktrace.WithBatchTimeout(time.Hour), sdktrace.WithExportTimeout(0))
+	tp := sdktrace.NewTracerProvider(sdktrace.WithSampler(sdktrace.AlwaysSample()), sdktrace.WithSpanProcessor(bsp))
+	tr := tp.Tracer("cap")
+	end := func() trace.SpanID {
+		_, sp := tr.Start(context.Background(), "s")
+		sp.End()
+		return sp.SpanContext().SpanID()
+	}
+	first := end() // batch size 1: the worker exports it at once and parks in the gate
+	select {
+	case <-e.entered:
+	case <-time.After(20 * time.Second):
+		k.C.Inconclusive("the worker never reached the exporter")
+		close(e.gate)
+		return
+	}
+	var fit, over []trace.SpanID
+	for i := 0; i < q; i++ {
+		fit = append(fit, end())
+	}
+	for i := 0; i < extra; i++ {
+		over = append(over, end())
+	}
+	close(e.gate)
+	ctx, cancel := context.WithTimeout(context.Background(), 20*time.Second)
+	defer cancel()
+	if err := tp.ForceFlush(ctx); err != nil {
+		k.C.Inconclusive("flush did not finish: " + err.Error())
+		return
+	}
+	tp.Shutdown(ctx)
+	e.mu.Lock()
+	defer e.mu.Unlock()
+	cfg := fmt.Sprintf("queue=%d batch=1 dropping mode, worker parked in a gated export; %d spans ended into the empty queue, then %d more", q, q, extra)
+	if e.ids[first] != 1 {
+		k.Violate("span-not-exported-by-flush-return", "capacity: first span", cfg, nil)
+	}
+	for i, id := range fit {
+		if e.ids[id] != 1 {
+			k.Violate("dropped-although-queue-not-full", "", fmt.Sprintf("%s\nspan %d of %d that fit into the queue was exported %d times", cfg, i+1, q, e.ids[id]), nil)
+			break
+		}
+	}
+	for _, id := range over {
+		if e.ids[id] != 0 {
+			k.Violate("exported-beyond-capacity", "", cfg, nil)
+			break
+		}
+	}
+	k.C.Count("capacity_cases", 1)
+	k.C.Sig(fmt.Sprintf("capacity|%d|%d", q, extra))
+}
+
 func main() {
 	vf.Main("C01", "exploration", func(c *vf.Ctx) {
 		c.Rule = "seeded concurrent histories against the real BatchSpanProcessor: producers x spans, flushers (live/short-deadline/cancelled contexts), mid-run and concurrent Shutdown callers, configurations queue{1,2,3,8,64,2048} x batch{1,2,3,7,64,512} x timeout{1ms,5ms,1h} x exportTimeout{0,1ms,1s} x blocking, exporters instant/slow/erroring/ctx-blocking/gate-blocked, GOMAXPROCS{2,4,16}; one history at a time per child process so the SDK's total_dropped debug record is attributable. distinct = distinct (configuration, drops seen, flush||export overlap, shutdown||End overlap) signatures"
@@ -660,6 +742,8 @@ func main() {
 		}
 		n := c.N(4000, 40000)
 		c.Isolated("histories", n, vf.IsoOpts{Batch: 50, Par: 16, Timeout: 10 * time.Minute}, runHistory)
+		c.Isolated("capacity", c.N(240, 3000), vf.IsoOpts{Batch: 40, Par: 16, Timeout: 10 * time.Minute}, runCapacity)
+		c.Floor("capacity_cases", 100)
 		c.Floor("histories", int64(n*9/10))
 		c.Floor("conservation_checks", 50)
 		c.Floor("histories_with_drops", 10)
